@@ -51,16 +51,16 @@ SPECS = {
                   extra={'ar_order': [2, 4]}),
     'pyule': dict(ctor=lambda d: dict(args=(d, 2), kw={}),
                   ctor_attr={'sampling': 'sampling', 'NFFT': 'NFFT', 'scale_by_freq': 'scale_by_freq', 'ar_order': 'order'},
-                  extra={'ar_order': [2, 4]}),
+                  extra={'ar_order': [2, 0, 4]}),
     'pcovar': dict(ctor=lambda d: dict(args=(d, 2), kw={}),
                    ctor_attr={'sampling': 'sampling', 'NFFT': 'NFFT', 'scale_by_freq': 'scale_by_freq', 'ar_order': 'order'},
-                   extra={'ar_order': [2, 4]}),
+                   extra={'ar_order': [2, 0, 4]}),
     'pmodcovar': dict(ctor=lambda d: dict(args=(d, 2), kw={}),
                       ctor_attr={'sampling': 'sampling', 'NFFT': 'NFFT', 'scale_by_freq': 'scale_by_freq', 'ar_order': 'order'},
-                      extra={'ar_order': [2, 4]}),
+                      extra={'ar_order': [2, 0, 4]}),
     'parma': dict(ctor=lambda d: dict(args=(d, 2, 2, 8), kw={}),
                   ctor_attr={'sampling': 'sampling', 'NFFT': 'NFFT', 'scale_by_freq': 'scale_by_freq', 'ar_order': 'P', 'ma_order': 'Q', 'lag': 'lag'},
-                  extra={'ar_order': [2, 3], 'ma_order': [2, 3], 'lag': [8, 10]}),
+                  extra={'ar_order': [2, 0, 3], 'ma_order': [2, 3], 'lag': [8, 10]}),       # AR order 0 (pure MA part) is valid for parma, pyule, pcovar, pmodcovar
     'pma': dict(ctor=lambda d: dict(args=(d, 2, 6), kw={}),
                 ctor_attr={'sampling': 'sampling', 'NFFT': 'NFFT', 'scale_by_freq': 'scale_by_freq', 'ar_order': 'M', 'ma_order': 'Q'},
                 extra={'ar_order': [6, 8], 'ma_order': [2, 3]}),
@@ -110,6 +110,9 @@ def events_for(cls, dt, cross=False):
     for a, vals in COMMON.items():
         for v in vals:
             ev.append(('set', a, v))
+    ev.append(('set', 'sampling', 'npf:0.5'))      # a sampling rate computed with numpy (e.g. 1/np.mean(np.diff(t)))
+    ev.append(('imul',))                          # obj.data *= 1.5 : augmented assignment through the data property
+    ev.append(('scribble',))                      # the caller overwrites, in place and without assigning it, the array it handed to the object earlier
     for a, vals in spec['extra'].items():
         for v in vals:
             ev.append(('set', a, v))
@@ -153,15 +156,24 @@ def construct(cls, data, **over):
 
 
 def _pyval(v):
-    """'np:4' encodes the value numpy.int64(4) in an event (JSON-able); the models use the plain integer."""
+    """'np:4' encodes numpy.int64(4), 'npf:0.5' numpy.float64(0.5) in an event (JSON-able); the models use the plain Python value."""
+    if isinstance(v, str) and v.startswith('npf:'):
+        return float(v[4:])
     return int(v[3:]) if isinstance(v, str) and v.startswith('np:') else v
 
 
 def _implval(v):
+    if isinstance(v, str) and v.startswith('npf:'):
+        return np.float64(float(v[4:]))
     return np.int64(int(v[3:])) if isinstance(v, str) and v.startswith('np:') else v
 
 
 def apply_event(obj, ev):
+    if ev[0] in ('data', 'refill', 'set', 'imul'):
+        try:
+            obj.frequencies()          # a user looks at the axis before changing something: a pure read, it must not freeze anything
+        except Exception:
+            pass
     if ev[0] == 'data':
         obj.data = DATA[ev[1]][ev[2]].copy()
     elif ev[0] == 'refill':
@@ -170,6 +182,13 @@ def apply_event(obj, ev):
             buf = obj.__dict__['_caller_buffer'] = DATA[ev[1]][ev[2]].copy()
         buf[:] = DATA[ev[1]][ev[2]]
         obj.data = buf
+    elif ev[0] == 'imul':
+        obj.data *= 1.5
+    elif ev[0] == 'scribble':
+        buf = obj.__dict__.get('_caller_buffer')
+        if buf is not None:
+            buf[...] = buf[::-1] * 3.0 + 1.0
+            obj.__dict__['_caller_buffer'] = buf.copy()       # the caller moves on to a new buffer; the old one is garbage from now on
     elif ev[0] == 'set':
         setattr(obj, ev[1], _implval(ev[2]))
     elif ev[0] == 'call':
@@ -273,6 +292,8 @@ def model_attrs(cls, dt, hist):
     for ev in hist:
         if ev[0] in ('data', 'refill'):
             data = DATA[ev[1]][ev[2]]
+        elif ev[0] == 'imul':
+            data = data * 1.5
         elif ev[0] == 'set' and ev[1] != 'sides':
             m[ev[1]] = resolve(ev[2], data) if ev[1] == 'NFFT' else _pyval(ev[2])
     m['data'] = data
@@ -399,6 +420,10 @@ def repro(pt):
     for ev in pt['history']:
         if ev[0] == 'data':
             lines.append('o.data = DATA[%r][%d]' % (ev[1], ev[2]))
+        elif ev[0] == 'imul':
+            lines.append('o.data *= 1.5')
+        elif ev[0] == 'scribble':
+            lines.append('buf[...] = buf[::-1] * 3.0 + 1.0; buf = buf.copy()    # the caller reuses its own array')
         elif ev[0] == 'refill':
             lines.append('buf[:] = DATA[%r][%d]; o.data = buf    # buf = the array given to the constructor' % (ev[1], ev[2]))
         elif ev[0] == 'set':
